@@ -65,6 +65,9 @@ class LSeq:
         n = self.length()
         if isinstance(n, int):
             return [self.at(interp, i) for i in range(n)]
+        k = forced_value(interp.path, n)
+        if k is not None:
+            return [self.at(interp, i) for i in range(k)]
         raise OutOfSubset("iteration over a sequence of symbolic length (needs a loop contract)")
 
     def __pyvc_unpack__(self, interp, n):
@@ -105,6 +108,22 @@ class LSeq:
                 return True
             return Z(z3.Or(*[c.e for c in cs])) if cs else False
         raise OutOfSubset("membership in a sequence of symbolic length")
+
+
+def forced_value(path, n, upto=4):
+    """If the path condition forces the integer term n to one value in 0..upto, return it."""
+    s = z3.Solver()
+    s.set("timeout", 500)
+    for c in path.pc:
+        s.add(c)
+    for k in range(upto + 1):
+        s.push()
+        s.add(n != k)
+        r = s.check()
+        s.pop()
+        if r == z3.unsat:
+            return k
+    return None
 
 
 def as_seq(v):
@@ -246,6 +265,12 @@ class SymSet:
     def __init__(self, name):
         self.name = name
         self.mem = z3.Function(f"in_{name}", SYM, z3.BoolSort())
+
+    def __pyvc_iter__(self, interp):
+        # `for Y in <set>`: one generic member
+        y = fresh(f"member_{self.name}")
+        interp.path.assume(self.mem(y))
+        return [Z(y)]
 
     def __pyvc_contains__(self, interp, x):
         return Z(self.mem(zexpr(x)))
